@@ -109,6 +109,9 @@ struct Cfg {
     notify_in_cb: bool,
     /// offer the second attach on an attached listener with the other attachment kind as well
     twice_other_kind: bool,
+    /// offer dropping and re-creating an unattached listener (file descriptor number reuse)
+    #[serde(default)]
+    recreate: bool,
 }
 
 #[derive(Clone, Debug, Serialize, Deserialize, PartialEq, Eq)]
@@ -134,6 +137,9 @@ enum Op {
     ProcessNotifying(usize),
     /// Expiry mode: sleep 5 ms, then process
     SleepProcess,
+    /// drop the (unattached) listener l and create a new one on the same service: the new listener
+    /// usually gets the file descriptor number of the old one
+    RecreateListener(usize),
 }
 
 #[derive(Clone, Copy, Debug, PartialEq, Eq, Hash, PartialOrd, Ord)]
@@ -188,7 +194,7 @@ where
     guards: Vec<Option<Guard<S>>>,
     filler: Vec<Guard<S>>,
     ws: Option<Box<WaitSet<S>>>,
-    listeners: Vec<Box<Listener<S>>>,
+    listeners: Vec<Option<Box<Listener<S>>>>,
     notifiers: Vec<Notifier<S>>,
     services: Vec<EventFactory<S>>,
     node: Option<Node<S>>,
@@ -252,7 +258,7 @@ where
                 .create()
                 .map_err(|e| fail_new("service", e))?;
             for _ in 0..count {
-                w.listeners.push(Box::new(svc.listener_builder().create().map_err(|e| fail_new("listener", e))?));
+                w.listeners.push(Some(Box::new(svc.listener_builder().create().map_err(|e| fail_new("listener", e))?)));
                 w.service_of.push(s);
             }
             w.notifiers.push(svc.notifier_builder().create().map_err(|e| fail_new("notifier", e))?);
@@ -290,7 +296,7 @@ where
 
     /// the listeners live (boxed, never moved) until `teardown` has dropped every guard
     fn listener(&self, l: usize) -> &'static Listener<S> {
-        let p: *const Listener<S> = &*self.listeners[l];
+        let p: *const Listener<S> = &**self.listeners[l].as_ref().expect("listener alive");
         unsafe { &*p }
     }
 
@@ -384,7 +390,7 @@ where
     }
 
     fn drain(&mut self, l: usize, site: &str) -> Result<(), Fail> {
-        let got = drain_listener(&self.listeners[l]).map_err(|e| Fail::new("c20-drain", site, format!("listener {l}: {e}")))?;
+        let got = drain_listener(self.listeners[l].as_ref().expect("listener alive")).map_err(|e| Fail::new("c20-drain", site, format!("listener {l}: {e}")))?;
         let want = std::mem::take(&mut self.model.pending[l]);
         ensure!(got == want, "c20-lost-event", site, "listener {}: drained {:?} (id -> count) but {:?} was notified since the last drain", l, got, want);
         Ok(())
@@ -453,7 +459,7 @@ where
                 let (slot, missed) = matches[0];
                 reported.push((slot, missed));
                 if slot < n_listeners && !missed && drain {
-                    match drain_listener(&listeners[slot]) {
+                    match drain_listener(listeners[slot].as_ref().expect("listener alive")) {
                         Ok(got) => {
                             let want = std::mem::take(&mut model.pending[slot]);
                             if got != want && cb_fail.is_none() {
@@ -657,6 +663,13 @@ where
                 v.push(Op::DropGuard(k));
             }
         }
+        if c.recreate {
+            for l in 0..self.n_listeners {
+                if m.slots[l].is_none() {
+                    v.push(Op::RecreateListener(l));
+                }
+            }
+        }
         if expiry {
             v.push(Op::SleepProcess);
             return v;
@@ -697,6 +710,14 @@ where
             Op::Process => self.process(true, None, "process")?,
             Op::ProcessNoDrain => self.process(false, None, "process without draining")?,
             Op::ProcessNotifying(s) => self.process(true, Some(*s), "process with notify inside the callback")?,
+            Op::RecreateListener(l) => {
+                ensure!(self.model.slots[*l].is_none(), "harness", "RecreateListener", "listener {} is attached", l);
+                self.listeners[*l] = None;
+                let s = self.service_of[*l];
+                let new = self.services[s].listener_builder().create().map_err(|e| Fail::new("c20-recreate", "listener re-creation", format!("{e:?}")))?;
+                self.listeners[*l] = Some(Box::new(new));
+                self.model.pending[*l].clear();
+            }
             Op::SleepProcess => {
                 std::thread::sleep(Duration::from_millis(5));
                 self.process(true, None, "process after expiry")?
@@ -747,6 +768,7 @@ fn op_name(op: &Op) -> &'static str {
         Op::ProcessNoDrain => "process without draining",
         Op::ProcessNotifying(_) => "process with notify inside the callback",
         Op::SleepProcess => "process after expiry",
+        Op::RecreateListener(_) => "listener re-creation",
     }
 }
 
@@ -767,6 +789,7 @@ fn cfg(variant: Variant, layout: &[usize]) -> Cfg {
         nodrain: false,
         notify_in_cb: false,
         twice_other_kind: false,
+        recreate: false,
     }
 }
 
@@ -783,7 +806,7 @@ impl Harness for H {
     }
     fn rule(&self) -> String {
         "every sequence (up to the tree depth) of attach_notification / attach_deadline / attach_interval (incl. on an attached listener and on a full wait set), \
-         guard drop, notify per service, listener drain and zero-timeout wait_and_process_once_with_timeout (draining, non-draining, notifying inside the callback) \
+         guard drop, notify per service, listener drain, re-creation of unattached listeners and zero-timeout wait_and_process_once_with_timeout (draining, non-draining, notifying inside the callback) \
          on a real WaitSet with 1..4 listeners over 1..2 event services (local = epoll + socket pair, ipc = epoll + unix datagram socket, custom variant = select reactor); \
          after every step a non-consuming processing call is compared with the model; a distinct state = (kind per attachment slot, pending event ids and counts per listener)"
             .into()
@@ -798,16 +821,21 @@ impl Harness for H {
         for variant in [Variant::Local, Variant::LocalSelect] {
             v.push((Cfg { nodrain: true, notify_in_cb: true, ..cfg(variant, &[1]) }, plan(if q { 6 } else { 8 }, if q { 1 } else { 4 })));
             v.push((Cfg { nodrain: true, ..cfg(variant, &[2]) }, plan(if q { 6 } else { 7 }, if q { 4 } else { 8 })));
-            v.push((Cfg { notify_in_cb: true, ..cfg(variant, &[1, 1]) }, plan(if q { 5 } else { 7 }, if q { 2 } else { 12 })));
+            v.push((Cfg { notify_in_cb: true, ..cfg(variant, &[1, 1]) }, plan(if q { 5 } else { 6 }, if q { 2 } else { 12 })));
         }
         // --- deadlines and intervals
         for variant in [Variant::Local, Variant::LocalSelect] {
             v.push((Cfg { notification: false, deadline: true, intervals: 1, nodrain: true, ..cfg(variant, &[1]) }, plan(if q { 6 } else { 8 }, if q { 1 } else { 4 })));
-            v.push((Cfg { notification: false, deadline: true, intervals: 1, ..cfg(variant, &[2]) }, plan(if q { 5 } else { 7 }, if q { 2 } else { 10 })));
+            v.push((Cfg { notification: false, deadline: true, intervals: 1, ..cfg(variant, &[2]) }, plan(if q { 5 } else { 6 }, if q { 2 } else { 10 })));
             // mixed kinds, re-attachment with the other kind, attach twice with the other kind
             v.push((Cfg { deadline: true, intervals: 1, twice_other_kind: true, ..cfg(variant, &[1]) }, plan(if q { 6 } else { 7 }, if q { 3 } else { 8 })));
             v.push((Cfg { deadline: true, twice_other_kind: true, ..cfg(variant, &[1, 1]) }, plan(if q { 5 } else { 6 }, if q { 4 } else { 10 })));
         }
+        // --- listener re-creation between detach and re-attach (file descriptor number reuse)
+        for variant in [Variant::Local, Variant::LocalSelect] {
+            v.push((Cfg { recreate: true, ..cfg(variant, &[1, 1]) }, plan(if q { 4 } else { 6 }, if q { 2 } else { 12 })));
+        }
+        v.push((Cfg { recreate: true, ..cfg(Variant::Ipc, &[1, 1]) }, plan(if q { 3 } else { 4 }, 7)));
         // --- three / four listeners
         v.push((cfg(Variant::Local, &[2, 1]), plan(if q { 5 } else { 6 }, if q { 4 } else { 9 })));
         if !q {
